@@ -213,7 +213,8 @@ def _trigger_chars(ctx: RuleCtx, mod: Module, fn: ast.AST, guard: ast.If, inc: a
         lin, const = linear(inc.value)
         if const == -1 and len(lin) == 1 and next(iter(lin.values())) == 1 and next(iter(lin)).startswith('len('):
             nm = next(iter(lin))[4:-1]
-            defs = [n.value for n in ast.walk(guard) if isinstance(n, ast.Assign) and len(n.targets) == 1 and norm(n.targets[0]) == nm]
+            # definitions inside the arm that holds the increment (an elif chain nests the later arms in `orelse`)
+            defs = [n.value for b in guard.body for n in ast.walk(b) if isinstance(n, ast.Assign) and len(n.targets) == 1 and norm(n.targets[0]) == nm]
             if len(defs) == 1 and isinstance(defs[0], ast.Call) and isinstance(defs[0].func, ast.Attribute) and defs[0].func.attr == 'split' \
                     and len(defs[0].args) == 1 and isinstance(defs[0].args[0], ast.Constant) and isinstance(defs[0].args[0].value, str):
                 out.add(defs[0].args[0].value)
